@@ -19,14 +19,16 @@ SeqsOf(n) == {s \in SeqsUpTo(n) : Len(s) = n}
 
 Opts == {[rev |-> r, keyf |-> FALSE, cmp |-> c, fail |-> "none", at |-> 0] : r \in BOOLEAN, c \in {"default", "ltdesc"}}
 
-Init == in \in SeqsUpTo(N) /\ o \in Opts
-Next == UNCHANGED <<in, o>>
+\* the sequences are grown element by element, so that every worker gets its share of the states
+Init == in = <<>> /\ o \in Opts
+Next == Len(in) < N /\ \E x \in Items : in' = Append(in, x) /\ o' = o
 
 lt(a, b) == Lt(o, KR, a, b)
-Outs == {[i \in 1..Len(in) |-> in[p[i]]] : p \in {q \in Perms(Len(in)) : IsStableSortVia(in, [i \in 1..Len(in) |-> in[q[i]]], lt, q)}}
+PermTab == [n \in 0..N |-> Perms(n)]
+Outs == {[i \in 1..Len(in) |-> in[p[i]]] : p \in {q \in PermTab[Len(in)] : IsStableSortVia(in, [i \in 1..Len(in) |-> in[q[i]]], lt, q)}}
 ExistsUnique == Outs = {Sort(in, lt)}
-Equivalent == Len(in) <= NE => \A out \in SeqsOf(Len(in)) : IsStableSort(in, out, lt) = StableSorted(in, out, lt)
-WeakOrder == \A a, b, c \in Items :
+Equivalent == Len(in) <= NE => \A out \in SeqsOf(Len(in)) : IsStableSortP(in, out, lt, PermTab[Len(in)]) = StableSorted(in, out, lt)
+WeakOrder == Len(in) = 0 => \A a, b, c \in Items :
                /\ ~lt(a, a)
                /\ (lt(a, b) /\ lt(b, c)) => lt(a, c)
                /\ (Eqv(lt, a, b) /\ Eqv(lt, b, c)) => Eqv(lt, a, c)
